@@ -105,6 +105,14 @@ def start_states(rng, n):
     return out
 
 
+GMEMO = {}     # process-wide: digest of a question -> (digest of the answer, the question) - the same question in other histories
+
+
+def _dg(x):
+    import hashlib
+    return hashlib.sha1(x.encode()).digest()[:12]
+
+
 class World:
     def __init__(self, rng, st_json, comps_name, via):
         self.rng = rng
@@ -117,7 +125,9 @@ class World:
                                if self.route else steps.R_SHIPPED)
         self.xf = build.termination(steps.TERM_SHIPPED)
         h, w = len(st_json['grid']), len(st_json['grid'][0])
-        self.of = build.observation(steps.C(rng.choice(['fully_transparent', 'raytracing', 'partially_occluded']), area=[[-2, 0], [-1, 1]]))
+        self.of_name = rng.choice(['fully_transparent', 'raytracing', 'partially_occluded'])
+        self.of = build.observation(steps.C(self.of_name, area=[[-2, 0], [-1, 1]]))
+        self.qctx = json.dumps([comps_name, self.of_name, self.route])
         self.via = via
         self.env = GridWorld(build.state_space(steps.family_space(h, w)), build.action_space(steps.ACTIONS), None,
                              lambda rng=None: None, self.tf, self.of, self.rf, self.xf)
@@ -174,6 +184,10 @@ class World:
                 if key in self.memo and self.memo[key] != ans:
                     return f'step {step_i}: the same {op} question got a different answer after intervening calls'
                 self.memo[key] = ans
+                gk = _dg(self.qctx + repr(key))
+                if gk in GMEMO and GMEMO[gk][0] != _dg(ans):
+                    return f'step {step_i}: the same {op} question got a different answer in another history of this process'
+                GMEMO.setdefault(gk, (_dg(ans), [op, key[1], key[2]]))
             elif op == 'ReAsk':
                 # ask again every question asked so far whose state still exists unchanged
                 for (kind, snap, aname), ans in list(self.memo.items()):
@@ -215,7 +229,7 @@ def _chunk(args):
     rng = random.Random(seed)
     problems = []
     n = 0
-    starts = start_states(rng, 40) + door_route_states() * 2
+    starts = start_states(random.Random(quick * 7 + 11), 40) + door_route_states() * 2   # the same in every process: questions recur across processes
     for bi, beh in enumerate(behs):
         st = starts[bi % len(starts)]
         comps = 'keydoor' if st.get('route') else rng.choice(['all', 'keydoor', 'nested', 'only_box', 'basic'])
@@ -227,7 +241,7 @@ def _chunk(args):
             problems.append({'what': p, 'behaviour': beh, 'start': st, 'comps': comps, 'via': via})
             if len(problems) > 3:
                 break
-    return n, problems
+    return n, problems, {k: v[0] for k, v in GMEMO.items()}, {k: v[1] for k, v in list(GMEMO.items())[:0]}
 
 
 def dijkstra_keys(rng, n):
@@ -275,10 +289,20 @@ def run(ctx, replay=None):
     with mp.Pool(16) as pool:
         results = pool.map(_chunk, [(ctx.seed * 131 + i, behs[c0:c0 + chunk], ctx.quick) for i, c0 in enumerate(range(0, len(behs), chunk))])
     n_ops = 0
-    for n, problems in results:
+    merged, cross = {}, 0
+    for n, problems, memo, _ in results:
         n_ops += n
         for p in problems[:2]:
             ctx.violation(f"{p['what']} (composition {p['comps']}, via {p['via']}, behaviour {[b[0] for b in p['behaviour']]})", p)
+        # history-independence across processes: every process met the questions in another order, with other caches
+        for k, a in memo.items():
+            if k in merged and merged[k] != a:
+                cross += 1
+            merged.setdefault(k, a)
+    if cross:
+        ctx.violation(f'{cross} deterministic questions (same state, action, component) were answered differently in different worker processes, '
+                      f'i.e. after different histories of calls', {'kind': 'cross_history', 'questions': cross})
+    ctx.add_part('questions compared across histories and processes', distinct_questions=len(merged), conflicts=cross)
     nontrivial = sum(1 for b in behs if any(b[i][0] in ('Step', 'Copy') and any(x[0] == 'Mutate' for x in b[i + 1:]) for i in range(len(b))))
     ctx.add_counts(evaluations=n_ops, nontrivial=nontrivial, traces=len(behs))
     ctx.add_part('heap behaviours on real states', behaviours=len(behs), operations=n_ops)
